@@ -430,6 +430,11 @@ func (p *ProjectRunner) addRunningProcess(process *Process, unlessShuttingDown b
 		// state belongs to the new instance
 		current.superseded.Store(true)
 	}
+	if done := p.getDoneProcess(process.getName()); done != nil && done != process {
+		// whatever the ended instance still has under way (a late probe result, the tail of
+		// its goroutine) must not touch the state of the new one
+		done.superseded.Store(true)
+	}
 	p.runningProcesses[process.getName()] = process
 	// a new instance starts its life Pending, whatever the previous one left behind; set
 	// before anybody can find the instance in the registry
@@ -438,6 +443,13 @@ func (p *ProjectRunner) addRunningProcess(process *Process, unlessShuttingDown b
 }
 
 func (p *ProjectRunner) addDoneProcess(process *Process) {
+	// a newer instance registers (and marks this one superseded) under the same lock: an
+	// instance that is late to report its end never replaces the record of a newer one
+	p.runProcMutex.Lock()
+	defer p.runProcMutex.Unlock()
+	if process.superseded.Load() {
+		return
+	}
 	p.doneProcMutex.Lock()
 	p.doneProcesses[process.getName()] = process
 	p.doneProcMutex.Unlock()
